@@ -327,6 +327,9 @@ func Check() *common.Check {
 			"the family catalogue is hand-written; shapes outside it are not covered",
 		},
 		CrashSafe: true,
+		// recovery over a nest of n sub-queries far beyond the depth limit collects n errors of about 11 KB each (every one
+		// wraps the texts of 100 levels): linear, but a gigabyte at the top of the thorough ladder
+		MemLimit:  8 << 30,
 		Enumerate: enumerate,
 		Extra:     extra,
 	}
